@@ -53,7 +53,10 @@ int main(int argc, char **argv) {
     }
     return 0;
   }
-  if (mode == "gen" && std::string(argv[2]) == "rand") {
+  if (mode == "gen" && (std::string(argv[2]) == "rand" || std::string(argv[2]) == "zerow")) {
+    // "zerow": the same histories with a quarter of the insertions of WIDTH 0 (accepted by RowLegalizer: a cell without extent
+    // that still takes a place in the order; outside `fits` of the theorems, judged by the statement oracle and the tie)
+    const bool zerow = std::string(argv[2]) == "zerow";
     SplitMix g(strtoull(argv[3], nullptr, 10)); long long count = atoll(argv[4]);
     for (long long it = 0; it < count; ++it) {
       int cls = (int)g.uni(0, 9);
@@ -67,6 +70,7 @@ int main(int argc, char **argv) {
       // with cell areas < 2^31 (C07 domain): width*displacement may be large, that is C07's business
       for (int i = 0; i < n && rem > 0; ++i) {
         long long wi = g.coin(20) ? g.uni(1, std::min(rem, 3 * scale)) : g.uni(1, std::min(rem, maxw));
+        if (zerow && g.coin(25)) wi = 0;
         long long ti;
         int tk = (int)g.uni(0, 9);
         if (tk < 5) ti = g.uni(b, e);                                 // inside
